@@ -342,17 +342,9 @@ func MatchAnchoredLiteral(input []byte, info *AnchoredLiteralInfo) bool {
 
 	// If no charclass bridge required, we're done
 	// (wildcard .* matches everything between prefix and suffix)
-	// lastNL is the offset of the last '\n' between prefix and suffix that the
-	// wildcard would have to cross, or -1.
-	lastNL := -1
-	if info.WildcardExcludesNL && suffixStart > len(info.Prefix) {
-		if k := bytes.LastIndexByte(input[len(info.Prefix):suffixStart], '\n'); k >= 0 {
-			lastNL = len(info.Prefix) + k
-		}
-	}
-
 	if info.CharClassTable == nil {
-		if lastNL >= 0 {
+		if info.WildcardExcludesNL && suffixStart > len(info.Prefix) &&
+			bytes.IndexByte(input[len(info.Prefix):suffixStart], '\n') >= 0 {
 			return false // the default dot does not match '\n'
 		}
 		// Still need to verify wildcard minimum
@@ -382,7 +374,8 @@ func MatchAnchoredLiteral(input []byte, info *AnchoredLiteralInfo) bool {
 		}
 	}
 
-	if lastNL >= 0 && lastNL < charClassEnd-found {
+	if runStart := charClassEnd - found; info.WildcardExcludesNL && runStart > len(info.Prefix) &&
+		bytes.IndexByte(input[len(info.Prefix):runStart], '\n') >= 0 {
 		// A '\n' lies in the part only the wildcard can cover (it is not
 		// inside the class run before the suffix).
 		return false
